@@ -1,5 +1,6 @@
 import PycsepVerif.GeneratedSrc
 import PycsepVerif.Model.Bin1d
+import PycsepVerif.Model.RegionBuild
 import PycsepVerif.Proofs.Soft64Round
 import PycsepVerif.Proofs.Bin1d
 import Mathlib.Data.Rat.Floor
@@ -282,8 +283,8 @@ theorem pow2_52 : pow2 52 = (4503599627370496 : Rat) := by decide +kernel
 /-- **`cleaner_range(start, end, h)`** (float64 arguments). `nd` is the nested `num_decimals` (number of decimals of `repr`,
     an opaque input exactly as in the model, where `dec = max(nd start, nd h)`): on the main path (the guard
     `scale*max(|start|,|end|) < 2**52` holds) the model returns what the generated definition returns, otherwise the model
-    is `none` (fallback path, present in the generated definition, not modelled). -/
-theorem cleaner_range_eq_model (nd : Rat → Int) (s e h : Rat) (dec : Nat) (hd : max (nd s) (nd h) = (dec : Int)) :
+    is `none` (the fallback path: see `cleaner_range_eq_model` below, which covers both). -/
+theorem cleaner_range_main_path (nd : Rat → Int) (s e h : Rat) (dec : Nat) (hd : max (nd s) (nd h) = (dec : Int)) :
     cleanerRangeF s e h dec =
       if fmul (fl64 ((10 ^ dec : Nat) : Rat)) (if fabs s < fabs e then fabs e else fabs s) < pow2 52
       then some (Src.cleaner_range nd s e h) else none := by
@@ -300,4 +301,51 @@ theorem cleaner_range_eq_model (nd : Rat → Int) (s e h : Rat) (dec : Nat) (hd 
 /-- the nested `num_decimals` (an opaque parameter above; its value comes from `repr`) is the one this file was written for -/
 theorem cleaner_range_helpers_pinned : Src.cleaner_range_helpers = [("num_decimals", "4ea18ac086d5")] := by decide
 
+theorem truncF_floor (q : Rat) : Py.truncF (Py.np_floor q) = q.floor := by
+  unfold Py.truncF Py.np_floor ffloor
+  by_cases h : (0 : Rat) ≤ ((q.floor : Int) : Rat)
+  · simp [h]
+  · simp only [h, if_false]
+    have : -(((q.floor : Int) : Rat)) = ((-(q.floor) : Int) : Rat) := by push_cast; ring
+    rw [this, Rat.floor_intCast]; ring
+
+/-- **`cleaner_range(start, end, h)`, both paths** (after fix D49): the generated definition is the C02 owner's
+    `Region.cleanerRangeAll` — the main path when the guard holds, otherwise `fallbackRange`
+    (`start + numpy.arange(n + 1) * h`). `nd` is the nested `num_decimals` (opaque, as in the model: `decS = nd start`,
+    `decH = nd h`). Hypothesis: at most 2^53 edges on the fallback path (the int64 → float64 conversion of the index is exact). -/
+theorem cleaner_range_eq_model (nd : Rat → Int) (s e h : Rat) (decS decH : Nat) (hs : nd s = (decS : Int))
+    (hh : nd h = (decH : Int)) (hn : (fadd (fdiv (fsub e s) h) (1 / 2)).floor + 1 ≤ 2 ^ 53) :
+    Src.cleaner_range nd s e h = Region.cleanerRangeAll s e h decS decH := by
+  have hd : max (nd s) (nd h) = ((max decS decH : Nat) : Int) := by rw [hs, hh]; push_cast; rfl
+  have hm := cleaner_range_main_path nd s e h (max decS decH) hd
+  unfold Region.cleanerRangeAll
+  rw [hm]
+  by_cases hg : fmul (fl64 ((10 ^ (max decS decH) : Nat) : Rat)) (if fabs s < fabs e then fabs e else fabs s) < pow2 52
+  · simp only [hg, if_true]
+  · simp only [hg, if_false]
+    have hsc : Py.i2f (Py.ipow 10 (max (nd s) (nd h))) = fl64 ((10 ^ (max decS decH) : Nat) : Rat) := by
+      rw [hd]; simp only [Py.i2f, Py.ipow, Int.toNat_natCast]; push_cast; rfl
+    have hg' : ¬ fmul (fl64 ((10 ^ (max decS decH) : Nat) : Rat)) (if fabs s < fabs e then fabs e else fabs s)
+        < (4503599627370496 : Rat) := by rw [← pow2_52]; exact hg
+    unfold Src.cleaner_range Region.fallbackRange
+    simp only [hsc, Py.fmax, Py.np_abs, decide_eq_true_eq, truncF_floor, Py.range, List.map_map]
+    have e1 : (1 + (fadd (fdiv (fsub e s) h) (1 / 2)).floor - 0).toNat = ((fadd (fdiv (fsub e s) h) (1 / 2)).floor + 1).toNat := by
+      congr 1; ring
+    rw [e1]
+    by_cases hg2 : fmul (fl64 ((10 ^ (max decS decH) : Nat) : Rat)) (if fabs s < fabs e then fabs e else fabs s)
+        < (4503599627370496 : Rat)
+    · exact absurd hg2 hg'
+    refine Eq.trans (if_neg (by exact hg2)) ?_
+    apply List.map_congr_left
+    intro k hk
+    have hk' := List.mem_range.mp hk
+    simp only [Function.comp, zero_add]
+    have hkb : |((k : Nat) : Int)| ≤ 2 ^ 53 := by
+      rw [abs_of_nonneg (by positivity)]
+      have : ((k : Nat) : Int) < (fadd (fdiv (fsub e s) h) (1 / 2)).floor + 1 := by omega
+      omega
+    have := Soft64R.fl64_intCast hkb
+    simp only [Py.i2f, this]
+    push_cast
+    rfl
 end Src
